@@ -220,7 +220,7 @@ PlanProg(D, idx) ==
               IF i > Len(seq) THEN acc
               ELSE LET n == seq[i]
                        P0 == Prov(D, n)
-                       ln == base + 10 * i
+                       ln == base + 40 * i
                        ws == {m \in WaitsOf(D, T, n) : TRUE}
                        wseq == SelectSeq(DepsOf(D, n, ArgSet(D)), LAMBDA m : m \in ws)
                        \* one wait per awaited dependency, in parameter order, duplicates once
@@ -232,15 +232,15 @@ PlanProg(D, idx) ==
                                    [Instr("wait", ln + k) EXCEPT !.chans = <<ChanOf(wu[k])>>, !.ctx = selectForm,
                                                                   !.rerr = IF selectForm THEN "ctx" ELSE "nil",
                                                                   !.rval = IF isMain THEN "zero" ELSE "none",
-                                                                  !.rline = ln + k + 5]]
+                                                                  !.rline = ln + 15 + k]]
                        deps == DepsOf(D, n, ArgSet(D))
-                       call == [Instr("call", ln + 6) EXCEPT !.p = n, !.args = [k \in DOMAIN deps |-> varOfNode(deps[k])],
+                       call == [Instr("call", ln + 32) EXCEPT !.p = n, !.args = [k \in DOMAIN deps |-> varOfNode(deps[k])],
                                                               !.rets = <<VarOf(n)>>, !.fall = P0.fallible,
                                                               !.errck = IF P0.fallible /\ (~isMain \/ hasErr) THEN "ret" ELSE "",
                                                               !.rerr = IF P0.fallible THEN "err" ELSE "nil",
                                                               !.rval = IF isMain THEN "zero" ELSE "none",
-                                                              !.rline = ln + 7]
-                       cls == IF hasGo /\ withChan(n) THEN <<[Instr("close", ln + 8) EXCEPT !.chans = <<ChanOf(n)>>]>> ELSE <<>>
+                                                              !.rline = ln + 33]
+                       cls == IF hasGo /\ withChan(n) THEN <<[Instr("close", ln + 34) EXCEPT !.chans = <<ChanOf(n)>>]>> ELSE <<>>
                    IN Gen(i + 1, acc \o waits \o <<call>> \o cls)
         IN Gen(1, <<>>)
       retVar == VarOf(Sup(D, D.ret)[1])
